@@ -267,25 +267,33 @@ def mk_collection(root, fmt, nsets):
     return c, sets
 
 
+def _do(c, name, *args):
+    """call a DataCollection method from the recording thread: through its generator twin when the current source makes it
+    (transitively) touch the two events - whichever methods those are in this tree - and directly otherwise"""
+    if name in CO:
+        return (yield from getattr(c, "co_" + name)(*args))
+    return getattr(c, name)(*args)
+
+
 def recorder(c, n, flush, subdiv, pause_at):
     if sh("restart", 0):
         # a first recording of one message on the same collection / data set objects, stopped, then recording starts again
-        yield from c.co_update(MSGS[4])
-        yield from c.co_stop()
+        yield from _do(c, "update", MSGS[4])
+        yield from _do(c, "stop")
         for k, ds in enumerate(c.datasets):
             ds.file_name_fmt = "second%d" % k       # the real logger's file names carry a timestamp: a new name per recording
-        c.start()
+        yield from _do(c, "start")
     for i in range(n):
         if flush[i]:
             Clock.t += 20.0          # past the periodic flush deadline (WRITE_PERIOD 15 s)
         if subdiv[i]:
             Clock.t += 40.0          # past the subdivision deadline (interval 30 s)
         if pause_at == i:
-            c.pause()
-        yield from c.co_update(MSGS[i])
+            yield from _do(c, "pause")
+        yield from _do(c, "update", MSGS[i])
         if pause_at == i:
-            c.resume()
-    yield from c.co_stop()
+            yield from _do(c, "resume")
+    yield from _do(c, "stop")
 
 
 def run(c, n, flush, subdiv, pause_at, sched):
